@@ -78,6 +78,8 @@ def judge(src, result, settings):
             if what == "internal_error":
                 m = re.search(r"Internal error: (\w+)", desc)
                 pb["exc_type"] = m.group(1) if m else ""
+                # the beginning of the exception text (the tail alone may be cut inside a long repr)
+                pb["exc_head"] = re.sub(r"0x[0-9a-f]+", "0x?", desc[m.start():m.start() + 240]) if m else ""
             if what == "column-outside-line":
                 ln = lines[lineno - 1]
                 raw = ln.encode("utf-8")
